@@ -7,7 +7,7 @@ import random
 
 META = {'explanation': 'item-level operations proved as list-of-chunks equations; promotion rules enumerated completely; loop-bearing '
                        'operations and element-wise operators checked against a Python list model (bounded).'}
-EXTRA_TASKS = ['promotion', 'list_model']
+EXTRA_TASKS = ['inplace_ops', 'promotion', 'list_model']
 
 
 def _ob(oid, ok, witness=None):
@@ -250,6 +250,21 @@ def list_model(tier='quick', seed=0):
             ok = False
         if not ok:
             fails.append({'call': f'Array({dt!r}, {vals}) {op.__name__} {v}', 'python': "FAILS = True"})
+    return {'id': 'C14.list_model', 'obligations': [], 'evaluations': evals,
+            'bounded': [{'id': 'C14/array_.Array/list-model-differential', 'qualname': 'array_.Array', 'shape': 'random ops', 'function': 'Array slices/reverse/tolist/count/equals/copy/extend/operators',
+                         'bound': f'{N} random single operations on Arrays of <= 7 items x 8 dtypes with/without trailing bits; {N // 2} element-wise operator cases',
+                         'evaluations': evals, 'failures': fails[:3]}], 'summary': f'{evals} cases, {len(fails)} failures'}
+
+
+def inplace_ops(tier='quick', seed=0):
+    """in-place element-wise operators on Arrays: the list model's result, or ValueError / ZeroDivisionError-as-ValueError with the
+    Array unchanged -- in particular when only *some* items overflow (bounded, native)"""
+    import bitstring
+    from bitstring import Array, Dtype
+    rng = random.Random(seed ^ 0x5eed)
+    fails = []
+    evals = 0
+    for _ in range(3000 if tier == 'quick' else 60000):
         # in-place operators: the list model's result, or ValueError with the Array unchanged -- also when only *some* items overflow
         iops = [(operator.iadd, operator.add), (operator.isub, operator.sub), (operator.imul, operator.mul), (operator.ifloordiv, operator.floordiv),
                 (operator.ilshift, operator.lshift), (operator.irshift, operator.rshift)]
@@ -282,7 +297,11 @@ def list_model(tier='quick', seed=0):
                                     f"a = Array({dt2!r}, {vals2!r}, trailing_bits={(tb2 or None)!r}); before = a.data.bin\n"
                                     f"try:\n    a = operator.{iop.__name__}(a, {v2})\n    FAILS = not ({fits} and a.tolist()[:{len(vals2)}] == {want2!r})\n"
                                     f"except (ValueError, ZeroDivisionError):\n    FAILS = {fits} or a.data.bin != before\n"})
-    return {'id': 'C14.list_model', 'obligations': [], 'evaluations': evals,
-            'bounded': [{'id': 'C14/array_.Array/list-model-differential', 'qualname': 'array_.Array', 'shape': 'random ops', 'function': 'Array slices/reverse/tolist/count/equals/copy/extend/operators',
-                         'bound': f'{N} random single operations on Arrays of <= 7 items x 8 dtypes with/without trailing bits; {N // 2} element-wise operator cases',
-                         'evaluations': evals, 'failures': fails[:3]}], 'summary': f'{evals} cases, {len(fails)} failures'}
+
+        if len(fails) > 5:
+            break
+    return {'id': 'C14.inplace', 'obligations': [], 'evaluations': evals,
+            'bounded': [{'id': 'C14/array_.Array._apply_op_to_all_elements_inplace/list-model-and-rollback', 'qualname': 'array_.Array._apply_op_to_all_elements_inplace',
+                         'shape': 'random items x operators', 'function': 'Array += -= *= //= <<= >>= with a scalar', 'bound': '3000 random cases (60000 thorough)',
+                         'evaluations': evals, 'failures': fails[:3]}],
+            'summary': f'{evals} in-place operations, {len(fails)} failures'}
